@@ -141,6 +141,8 @@ def verify_unit(name, tier='quick', seed=0, threads=8, disabled_hints=(), depth=
     r.items = u.item_log
     r.relaxed = list(u.relaxed)
     r.autosliced_fns = list(getattr(u, 'autosliced_fns', []))
+    r.fn_idents = dict(getattr(u, 'fn_idents', {}))
+    r.fn_closures = dict(getattr(u, 'fn_closures', {}))
     r.opaque = u.opaque
     r.notes = u.notes
     r.assumptions = scan_assumptions(text)
